@@ -110,19 +110,41 @@ def gen_two_leaf_state(rng, dim, L, charge):
     return units
 
 
-def gen_case(rng, kind):
-    dim, L, beta = gen_env(rng)
-    charge = rng.random() < 0.5
-    job = {"kind": kind, "beta": f2b(beta), "dim": dim, "L": f2b(L), "charge": charge,
-           "ncharge": 2 if charge else rng.choice([0, 0, 2]), "change_required": True, "lifting": rng.choice(list(SCHEMES)),
-           "offset": f2b(rng.choice([0.0, 0.5, 1.0, 0.125])), "max_disp": f2b(rng.choice([0.125, 0.25, 1.0, 0.3 * L])),
-           "separations": [], "ret": {}, "expo": [], "unif": []}
+ENV_KEYS = ("kind", "beta", "dim", "L", "charge", "ncharge", "change_required", "lifting", "offset", "max_disp",
+            "separations", "_n")
+
+
+def cap_budget(rng, job, d1, d2, cap):
+    """Energy budget such that the piecewise-constant candidate is (not) capped at max_displacement."""
+    cd = max(d1, d2) + b2f(job["offset"])
+    if cd <= 0:
+        return None
+    m = cd * b2f(job["max_disp"])
+    return m * rng.choice([1.5, 3.0, 1.0 + 2.0 ** -20]) if cap else m * rng.choice([0.1, 0.5, 0.9])
+
+
+def gen_case(rng, kind, base=None, cap=None):
+    """One round.  With [base] the handler configuration and the setting are those of [base] (same handler instance);
+    [cap]: force the piecewise-constant candidate to be capped / not capped where the derivatives allow it."""
+    if base is None:
+        dim, L, beta = gen_env(rng)
+        charge = rng.random() < 0.5
+        job = {"kind": kind, "beta": f2b(beta), "dim": dim, "L": f2b(L), "charge": charge,
+               "ncharge": 2 if charge else rng.choice([0, 0, 2]), "change_required": True,
+               "lifting": rng.choice(list(SCHEMES)),
+               "offset": f2b(rng.choice([0.0, 0.5, 1.0, 0.125])),
+               "max_disp": f2b(rng.choice([0.125, 0.25, 1.0, 0.3 * L])), "separations": []}
+    else:
+        job = {k: base[k] for k in ENV_KEYS if k in base}
+        dim, L, beta, charge = job["dim"], b2f(job["L"]), b2f(job["beta"]), job["charge"]
+    job.update({"ret": {}, "expo": [], "unif": []})
     disp = rng.choice([rng.expovariate(1.0), rng.expovariate(1.0) * 10 ** rng.randrange(-6, 3), 0.0, 0.5, L])
     e = rng.expovariate(1.0) / beta
     if kind in ("TL", "TLB", "PW2"):
         job["units"] = gen_two_leaf_state(rng, dim, L, charge)
     if kind == "TL":
-        job["change_required"] = rng.random() < 0.6
+        if base is None:
+            job["change_required"] = rng.random() < 0.6
         job["ret"] = {"disp": [f2b(disp)]}
         job["expo"] = [f2b(e)]
     elif kind == "TLB":
@@ -132,15 +154,20 @@ def gen_case(rng, kind):
         job["expo"] = [f2b(e)]
         job["unif"] = [f2b(rng.randrange(0, 16) / 16)]
     elif kind == "PW2":
-        job["charge"] = charge
         ders = [dy(rng, -3, 4), dy(rng, -3, 4), dy(rng, -2, 4)]
+        if cap:
+            ders[2] = abs(ders[2]) + 0.125       # a stale bounding rate would confirm a spurious event
+        ce = cap_budget(rng, job, ders[0], ders[1], cap) if cap is not None else None
         job["ret"] = {"der": [f2b(x) for x in ders]}
-        job["expo"] = [f2b(e)]
-        job["unif"] = [f2b(rng.randrange(0, 16) / 16)]
+        job["expo"] = [f2b(e if ce is None else ce)]
+        job["unif"] = [f2b(rng.choice([0, 1, 2]) / 16 if cap else rng.randrange(0, 16) / 16)]
     elif kind == "FIXED":
-        job["charge"] = False
-        job["ncharge"] = rng.choice([0, 0, 1, 3])
-        n = rng.choice([3, 3, 4])
+        if base is None:
+            job["charge"] = False
+            job["ncharge"] = rng.choice([0, 0, 1, 3])
+            job["_n"] = rng.choice([3, 3, 4])
+            job["separations"] = [rng.randrange(job["_n"]) for _ in range(2 * rng.choice([1, 2, 2, 3]))]
+        n = job["_n"]
         units = []
         vel = rvel(rng, dim)
         a = rng.randrange(n)
@@ -150,22 +177,24 @@ def gen_case(rng, kind):
             for k, i in enumerate(sorted(rng.sample(range(10), n))):
                 units.append(unit([i], rpos(rng, dim, L), vel if k == a else None, gen_time(rng) if k == a else None))
         job["units"] = units
-        nsep = rng.choice([1, 2, 2, 3])
-        job["separations"] = [rng.randrange(n) for _ in range(2 * nsep)]
         vecs = []
         for _ in range(3):
             v = [dy(rng, -3, 3) for _ in range(n - 1)]
             v.append(-sum(v))
             rng.shuffle(v)
             vecs.append(v)
-        if rng.random() < 0.7 and vecs[2][a] <= 0:
+        if (cap or rng.random() < 0.7) and vecs[2][a] <= 0:
             j = max(range(n), key=lambda k: vecs[2][k])
             vecs[2][a], vecs[2][j] = vecs[2][j], vecs[2][a]
+        ce = cap_budget(rng, job, vecs[0][a], vecs[1][a], cap) if cap is not None else None
         job["ret"] = {"der": [[f2b(x) for x in v] for v in vecs]}
-        job["expo"] = [f2b(e)]
-        job["unif"] = [f2b(rng.randrange(0, 16) / 16), f2b(rng.randrange(1, 16) / 16), f2b(rng.randrange(1, 16) / 16)]
+        job["expo"] = [f2b(e if ce is None else ce)]
+        job["unif"] = [f2b(rng.choice([0, 1, 2]) / 16 if cap else rng.randrange(0, 16) / 16),
+                       f2b(rng.randrange(1, 16) / 16), f2b(rng.randrange(1, 16) / 16)]
     elif kind == "SUMMED":
-        m = rng.choice([2, 2, 3])
+        if base is None:
+            job["_n"] = rng.choice([2, 2, 3])
+        m = job["_n"]
         ids = rng.sample(range(10), 2)
         units = []
         vel = rvel(rng, dim)
@@ -182,6 +211,32 @@ def gen_case(rng, kind):
         job["expo"] = [f2b(rng.expovariate(1.0) / beta) for _ in range(m)]
         job["unif"] = [f2b(rng.randrange(0, 16) / 16), f2b(rng.randrange(1, 16) / 16), f2b(rng.randrange(1, 16) / 16)]
     return job
+
+
+def gen_seq(rng, kind):
+    """2-4 rounds (send_event_time [, send_out_state]) on ONE handler instance, as in the real program; for the
+    piecewise-constant handlers capped and uncapped candidates alternate."""
+    cap = rng.random() < 0.5 if kind in ("PW2", "FIXED") else None
+    first = gen_case(rng, kind, None, cap)
+    rounds = [first]
+    for _ in range(rng.choice([1, 2, 2, 3])):
+        if cap is not None:
+            cap = not cap if rng.random() < 0.85 else cap
+        rounds.append(gen_case(rng, kind, first, cap))
+    for k, rd in enumerate(rounds):
+        # the last round and every capped round is committed; earlier ones are sometimes trashed
+        rd["do_out"] = True if (k == len(rounds) - 1 or rng.random() < 0.65) else False
+    job = {k: first[k] for k in ENV_KEYS if k in first}
+    job["rounds"] = [{k: rd[k] for k in ("units", "ret", "expo", "unif", "do_out")} for rd in rounds]
+    return job
+
+
+def flatten(job):
+    """The rounds of a job as stand-alone single-round jobs (the model carries no state between rounds)."""
+    if not job.get("rounds"):
+        return [job]
+    env = {k: v for k, v in job.items() if k != "rounds"}
+    return [dict(env, **rd) for rd in job["rounds"]]
 
 
 # ------------------------------------------------------------------------------------------------
@@ -235,6 +290,10 @@ def coq_case(job, res):
         cfl(job["expo"]), cfl(job["unif"]))
     calls = C.coq_list(["(mkPC %d%%nat %s %s %s %s)" % (c[0], cfl(c[1]), C.coq_list([cfl(s) for s in c[2]]), cfl(c[3]),
                                                          copt(c[4], cf)) for c in res["calls"]])
+    if res["out"] == "skipped":
+        return "HCaseET %s %s %s\n %s\n %s %s\n %s\n %s" % (
+            job["kind"], env, fd, C.coq_list([coq_hunit(u) for u in job["units"]]), cfl(res["expo_args"]), calls,
+            ctime(res["time"]), C.coq_list([coq_ounit(o) for o in res["state1"]]))
     return "HCase %s %s %s\n %s\n %s %s\n %s\n %s\n %s\n %s\n %s" % (
         job["kind"], env, fd, C.coq_list([coq_hunit(u) for u in job["units"]]),
         cfl(res["expo_args"]), C.coq_list(["(%s, %s)" % (cf(a), cf(b)) for a, b in res["unif_args"]]), calls,
@@ -309,7 +368,7 @@ def oracle(job, res):
     ua = units[a]
     calls, n1 = res["calls"], res["n_calls1"]
     s1 = {tuple(o[0]): o for o in res["state1"]}
-    s2 = {tuple(o[0]): o for o in res["out"]} if res["out"] is not None else None
+    s2 = {tuple(o[0]): o for o in res["out"]} if res["out"] not in (None, "skipped") else None
     T = res["time"]
     # --- budget
     n_expo = {"TL": 1 if job["change_required"] else 0, "TLB": 1, "PW2": 1, "FIXED": 1}.get(kind)
@@ -430,6 +489,13 @@ def oracle(job, res):
             expected = other
         for c in calls[n1:]:
             check_sep(c, 0, pos1(a), pos1(other), "out-state")
+    elif kind in ("PW2", "FIXED") and rate is None:
+        # a candidate capped at max_displacement (or a non-positive bound) is never an event: send_out_state neither
+        # consults the potential nor draws, and leaves every velocity where it was
+        if len(calls) != n1 or res["unif_args"] or res["inserts"]:
+            fails.append("candidate capped at max_displacement, but send_out_state evaluated the potential / drew a "
+                         "uniform number (%d calls, %d draws): a bounding rate of an earlier round is still cached"
+                         % (len(calls) - n1, len(res["unif_args"])))
     elif kind == "PW2":
         if rate is not None:
             r = fr(job["ret"]["der"][2])
@@ -631,9 +697,19 @@ def run(ctx, jobs_override=None):
     if jobs_override is not None:
         jobs = jobs_override
     else:
-        n = ctx.n(60, 1200)
+        n = ctx.n(40, 700)
         jobs = load_corpus() + [gen_case(ctx.rng, k) for k in KINDS for _ in range(n)]
-    res = run_impl(ctx, jobs)
+        jobs += [gen_seq(ctx.rng, k) for k in KINDS for _ in range(ctx.n(30 if k in ("PW2", "FIXED") else 12, 400))]
+    seqs = jobs
+    res_seq = run_impl(ctx, seqs)
+    jobs, res, seq_of = [], [], []
+    for si, (sj, sr) in enumerate(zip(seqs, res_seq)):
+        fl = flatten(sj)
+        rr = sr["rounds"] if "rounds" in sr else [sr]
+        for k, (j, r) in enumerate(zip(fl, rr)):
+            jobs.append(j)
+            res.append(r)
+            seq_of.append((si, k))
     fails, terms, owner, excs = [], [], [], 0
     stats = {"confirmed": 0, "rejected": 0, "lifting_used": 0}
     for i, (job, r) in enumerate(zip(jobs, res)):
@@ -643,8 +719,11 @@ def run(ctx, jobs_override=None):
             continue
         if r["inserts"]:
             stats["lifting_used"] += 1
-        moved = [o for o, u in zip(r["out"], job["units"]) if (o[2] is None) != (u["vel"] is None)]
-        stats["confirmed" if moved else "rejected"] += 1
+        if r["out"] == "skipped":
+            stats["trashed"] = stats.get("trashed", 0) + 1
+        else:
+            moved = [o for o, u in zip(r["out"], job["units"]) if (o[2] is None) != (u["vel"] is None)]
+            stats["confirmed" if moved else "rejected"] += 1
         t = coq_case(job, r)
         if t is None:
             excs += 1
@@ -667,13 +746,14 @@ def run(ctx, jobs_override=None):
                     "C01 glue fails on the implementation: " + fails[0][1][0][:250])
     elif fails:
         i, f = fails[0]
-        C.violation(ctx, "oracle", {"kind": "c01-jobs", "jobs": [jobs[i]], "impl_result": res[i], "message": f,
-                                    "n_failing": len(fails)},
+        C.violation(ctx, "oracle", {"kind": "c01-jobs", "jobs": [seqs[seq_of[i][0]]], "failing_round": seq_of[i][1],
+                                    "impl_result": res[i], "message": f, "n_failing": len(fails)},
                     "C01 glue fails on the implementation (%s): %s" % (jobs[i]["kind"], f[0][:250]))
     elif mism:
         i = mism[0]
         C.violation(ctx, "correspondence",
-                    {"kind": "c01-jobs", "jobs": [jobs[i]], "impl_result": res[i],
+                    {"kind": "c01-jobs", "jobs": [seqs[seq_of[i][0]]], "failing_round": seq_of[i][1],
+                     "impl_result": res[i],
                      "message": "Model/Handlers.v does not reproduce the real handler on %d cases (first: %s); the "
                                 "exact-arithmetic oracle found no failing input; correspondence "
                                 "JF.Model.HandlersCases.check_hcase no longer checks" % (len(mism), jobs[i]["kind"])},
@@ -694,6 +774,8 @@ def run(ctx, jobs_override=None):
         "input_distribution": dict(kinds, **{"events confirmed (velocity moved)": stats["confirmed"],
                                              "events rejected / not confirmed": stats["rejected"],
                                              "cases through a lifting scheme": stats["lifting_used"],
+                                             "rounds trashed before send_out_state": stats.get("trashed", 0),
+                                             "handler instances reused over 2-4 rounds": sum(1 for q in seqs if q.get("rounds")),
                                              "cases outside the Coq model's vocabulary": excs}),
         "model_vs_impl_mismatches": len(mism),
         "oracle_failures": len(fails),
